@@ -631,11 +631,17 @@ class DestHandler:
         self._reset_internal(False)
 
     def _handle_fd_without_previous_metadata(self, first_pdu: bool, fd_pdu: FileDataPdu) -> None:
-        self._params.fp.progress = fd_pdu.offset + len(fd_pdu.file_data)
+        # The progress never moves backwards, file data PDUs might arrive out of order.
+        self._params.fp.progress = max(
+            self._params.fp.progress, fd_pdu.offset + len(fd_pdu.file_data)
+        )
         if len(fd_pdu.file_data) > 0:
             start = fd_pdu.offset
             if first_pdu:
                 start = 0
+                # Nothing can be stored before the metadata is known, so everything up to the current
+                # progress is lost. Start over to avoid overlapping or shrinking entries.
+                self._params.acked_params.lost_seg_tracker.reset()
             # I will just wait until the metadata has been received with re-requesting the file
             # data PDU. How does the standard expect me to process file data PDUs where I do not
             # even know the filenames? How would I even generically do this?
